@@ -74,6 +74,42 @@ def hostile_k(rng, q):
     return rng.randrange(q), "random"
 
 
+def endo_lattice_constants(mu, r):
+    """Short vectors of the lattice {(a, b): a + b*mu = 0 mod r}, found by the
+    extended Euclidean algorithm on (r, mu) (independent of the library's
+    hard-coded constants); the absolute values of their coordinates are the
+    multipliers e used in the rounded divisions round(k*e/r)."""
+    import math
+    r0, r1 = r, mu % r
+    t0, t1 = 0, 1
+    sq = math.isqrt(r)
+    vecs = []
+    while r1 != 0:
+        q_ = r0 // r1
+        r0, r1 = r1, r0 - q_ * r1
+        t0, t1 = t1, t0 - q_ * t1
+        if r0 < 4 * sq and len(vecs) < 3:
+            vecs.append((r0, t0))
+    es = set()
+    for (a, b) in vecs:
+        es.add(abs(a)); es.add(abs(b)); es.add(abs(a) + abs(b)); es.add(abs(abs(a) - abs(b)))
+    return sorted(e for e in es if 0 < e < (1 << 128))
+
+
+def rounding_boundary_scalar(rng, r, es):
+    """k such that round(k*e/r) = c sits on a limb boundary (c = m*2^64 - 1, m*2^64, m*2^64 + 1, 2^32 multiples) with the
+    fractional part of k*e/r near 0, +-1/2 (the rounded division must add/subtract one correctly across the limb)"""
+    e = rng.choice(es)
+    cmax = e  # c ranges up to about e
+    m = rng.randrange(1, max(2, cmax >> 64))
+    c = rng.choice([m << 64, (m << 64) - 1, (m << 64) + 1, (m << 64) - 2, ((m << 64) | (rng.getrandbits(32) << 32)) - rng.randrange(2),
+                    (rng.randrange(1, max(2, cmax >> 32)) << 32) - rng.randrange(2)])
+    f = rng.choice([-0.4999, -0.25, 0.0, 0.25, 0.4999, -0.5, 0.5])
+    k = int((c + f) * r) // e if f else (c * r + e // 2) // e
+    k += rng.randrange(-3, 4)
+    return k % r
+
+
 def expect_split_int(q, k, slack, maxsteps):
     def chk(resp):
         if not resp.startswith("OK "):
@@ -176,8 +212,13 @@ def gen(rng, shard, nshards, n_per_type, n_endo):
             ("gls254", "g gls254 split_mu ", RGLS254, ref_gls.GLS254.mu, int(2 ** 126.6), False),
             ("gls254odd", "g gls254 split_mu_odd ", RGLS254, ref_gls.GLS254.mu, int(2 ** 127.6), True)]
     for (nm, pre, q, mu, bound, odd) in ENDO:
+        es = endo_lattice_constants(mu, q)
         for _ in range(n_endo):
-            t = rng.randrange(4)
+            t = rng.randrange(6)
+            if t >= 4:
+                k, kc = rounding_boundary_scalar(rng, q, es), "limb-rounding-boundary"
+                cases.append(case1(pre + k.to_bytes(32, "little").hex(), expect_endo(q, k, mu, bound, odd), ["%s:%s" % (nm, kc)], "endomorphism split"))
+                continue
             if t == 0:
                 k, kc = hostile_k(rng, q)
             elif t == 1:
@@ -219,7 +260,7 @@ def main(argv):
         m = run_sharded("c11", "gen", (n1 // NCPU + 1, n2 // NCPU + 1), [(c, exes[c]) for c in cfgs], a.seed, timeout=3600)
         rep.merge(m)
         rep.require("sc25519:rational", "scp256:rational", "sc448:rational", "sc448:convergent", "g512:rational", "g127:rational",
-                    "jq255e:assembled-halves", "secp256k1:rounding-boundary", "gls254:assembled-halves", "gls254odd:random",
+                    "jq255e:assembled-halves", "secp256k1:rounding-boundary", "gls254:assembled-halves", "gls254odd:random", "jq255e:limb-rounding-boundary", "gls254:limb-rounding-boundary", "secp256k1:limb-rounding-boundary",
                     "rational(L,s)", "rational(s,L)", "rational(s,s)", "rational(L,L)", "slack=0", "slack=1", "slack=2", "extreme")
     except Inconclusive as e:
         rep.incon.append(str(e))
